@@ -1,4 +1,8 @@
 mod common;
+mod algos;
+mod enc;
+mod ix;
+mod mg;
 mod uf;
 use common::*;
 
@@ -22,6 +26,39 @@ fn main() {
         "uf-exec" => {
             let s = read_ndjson(&args.str("in", ""));
             uf::exec_script(&s, &mut Log::to_path(&out));
+        }
+        // ---- C01 / C02
+        "mg-random" => {
+            let mut log = Log::to_path(&out);
+            mg::gen_random(seed, args.num("segments", 30) as usize, args.num("len", 80) as usize, args.flag("stable"), &mut log);
+        }
+        // ---- R3 oracles: algorithm sweeps
+        "algo-sweep" => {
+            let mut log = Log::to_path(&out);
+            let mut o = algos::Out { log: &mut log, matrix: Default::default() };
+            algos::sweep(&args.str("prop", "C09"), seed, args.num("exh", 3) as usize, args.num("random", 100) as usize, args.num("nmax", 6) as usize, &mut o);
+            let m = serde_json::to_string(&o.matrix).unwrap();
+            eprintln!("MATRIX {}", m);
+        }
+        "algo-replay" => {
+            let mut log = Log::to_path(&out);
+            let mut o = algos::Out { log: &mut log, matrix: Default::default() };
+            let recs = read_ndjson(&args.str("in", ""));
+            algos::replay(&args.str("prop", "C09"), seed, &recs, &mut o);
+        }
+        "mg-scenarios" => {
+            let mut log = Log::to_path(&out);
+            mg::gen_scenarios(seed, args.num("segments", 60) as usize, args.flag("stable"), &mut log);
+        }
+        "mg-u8limit" => {
+            let mut log = Log::to_path(&out);
+            for d in [true, false] {
+                mg::gen_u8_limit(seed, args.flag("stable"), d, &mut log);
+            }
+        }
+        "mg-exec" => {
+            let s = read_ndjson(&args.str("in", ""));
+            mg::exec_script(&s, &mut Log::to_path(&out), seed);
         }
         _ => {
             eprintln!("usage: vh <cmd> [--seed N] [--out FILE] ...");
